@@ -261,6 +261,18 @@ type Handle struct {
 	lazySnap bool
 	runTag   string
 	noLog    bool
+	// yieldAfter: also yield when a storage call is about to return (a real
+	// engine can be preempted after the read or write took effect, too)
+	yieldAfter bool
+	// front, when set, is the Storage value handed to the library instead of
+	// the handle itself (see frontStorage)
+	front kvql.Storage
+}
+
+func (h *Handle) after() {
+	if h.yieldAfter && h.yield != nil {
+		h.yield(h.client)
+	}
 }
 
 func NewHandle(core *Core, client int, faults []Fault, lazy bool, runTag string) *Handle {
@@ -318,6 +330,7 @@ func (h *Handle) out(b []byte) []byte {
 }
 
 func (h *Handle) Get(key []byte) ([]byte, error) {
+	defer h.after()
 	ev, f := h.begin(OpGet)
 	ev.Key = string(key)
 	if f != nil {
@@ -336,6 +349,7 @@ func (h *Handle) Get(key []byte) ([]byte, error) {
 }
 
 func (h *Handle) Put(key, value []byte) error {
+	defer h.after()
 	ev, f := h.begin(OpPut)
 	ev.Key = string(key)
 	ev.Vals = []string{string(value)}
@@ -350,6 +364,7 @@ func (h *Handle) Put(key, value []byte) error {
 }
 
 func (h *Handle) BatchPut(kvs []kvql.KVPair) error {
+	defer h.after()
 	ev, f := h.begin(OpBPut)
 	ev.Keys = make([]string, len(kvs))
 	ev.Vals = make([]string, len(kvs))
@@ -379,6 +394,7 @@ func (h *Handle) BatchPut(kvs []kvql.KVPair) error {
 }
 
 func (h *Handle) Delete(key []byte) error {
+	defer h.after()
 	ev, f := h.begin(OpDel)
 	ev.Key = string(key)
 	if f != nil {
@@ -392,6 +408,7 @@ func (h *Handle) Delete(key []byte) error {
 }
 
 func (h *Handle) BatchDelete(keys [][]byte) error {
+	defer h.after()
 	ev, f := h.begin(OpBDel)
 	ev.Keys = make([]string, len(keys))
 	for i, k := range keys {
@@ -427,6 +444,7 @@ type simCursor struct {
 }
 
 func (h *Handle) Cursor() (kvql.Cursor, error) {
+	defer h.after()
 	ev, f := h.begin(OpCursor)
 	h.nCursors++
 	ev.Cur = h.nCursors
@@ -449,6 +467,7 @@ func (c *simCursor) ensure() {
 }
 
 func (c *simCursor) Seek(k []byte) error {
+	defer c.h.after()
 	ev, f := c.h.begin(OpSeek)
 	ev.Cur = c.id
 	ev.Key = string(k)
@@ -461,6 +480,7 @@ func (c *simCursor) Seek(k []byte) error {
 }
 
 func (c *simCursor) Next() ([]byte, []byte, error) {
+	defer c.h.after()
 	ev, f := c.h.begin(OpNext)
 	ev.Cur = c.id
 	if f != nil {
@@ -486,3 +506,24 @@ func (c *simCursor) Next() ([]byte, []byte, error) {
 }
 
 var _ = bytes.Compare
+
+// frontStorage presents ONE kvql.Storage identity to all clients of a shared
+// engine (the common deployment: one storage object, many goroutines) and
+// forwards each call to the calling client's Handle — the caller is the token
+// holder. Library state keyed by the Storage value is then shared by all
+// clients.
+type frontStorage struct{ hs []*Handle }
+
+func (f *frontStorage) h() *Handle {
+	i := schedCurrent()
+	if i < 0 || i >= len(f.hs) {
+		i = 0
+	}
+	return f.hs[i]
+}
+func (f *frontStorage) Get(key []byte) ([]byte, error)   { return f.h().Get(key) }
+func (f *frontStorage) Put(key, value []byte) error      { return f.h().Put(key, value) }
+func (f *frontStorage) BatchPut(kvs []kvql.KVPair) error { return f.h().BatchPut(kvs) }
+func (f *frontStorage) Delete(key []byte) error          { return f.h().Delete(key) }
+func (f *frontStorage) BatchDelete(keys [][]byte) error  { return f.h().BatchDelete(keys) }
+func (f *frontStorage) Cursor() (kvql.Cursor, error)     { return f.h().Cursor() }
